@@ -157,6 +157,67 @@ theorem other_clients_untouched (w : World) (cid : Nat) (n : Nat) (f : Bool) :
   refine List.mem_map.mpr ⟨x, hx, ?_⟩
   rw [if_neg hne]
 
+/-- the client records the framework holds: looking a client up after `client.add_transaction` -/
+theorem find_after_set (l : List Client) (cid : Nat) (c' : Client) (hc : c'.id = cid) (x : Client)
+    (hx : l.find? (fun y => decide (y.id = cid)) = some x) :
+    (l.map fun y => if y.id = c'.id then c' else y).find? (fun y => decide (y.id = cid)) = some c' := by
+  induction l with
+  | nil => cases hx
+  | cons a as ih =>
+    rw [List.map_cons, List.find?_cons]
+    by_cases ha : a.id = cid
+    · have : a.id = c'.id := by rw [hc, ha]
+      rw [if_pos this]; simp [hc]
+    · have hne : ¬ a.id = c'.id := by rw [hc]; exact ha
+      rw [if_neg hne]
+      rw [List.find?_cons] at hx
+      simp only [ha, decide_false] at hx ⊢
+      exact ih hx
+
+/-- C18.1 at the level of the framework: after an execution handler reports `n` submitted bets (or `n` failed
+    instructions) for a client the framework knows, THAT client's control holds exactly the old counters plus `n` in the
+    right pair of counters (total and hourly) - nothing is dropped, nothing is counted twice -/
+theorem addTransaction_exact (w : World) (cid n : Nat) (f : Bool) (h : (w.client? cid).isSome = true) :
+    ((w.addTransaction cid n f).client! cid).counter = (w.client! cid).counter.add n f := by
+  unfold addTransaction client! client? setClient at *
+  cases hx : w.clients.find? (fun y => decide (y.id = cid)) with
+  | none => rw [hx] at h; cases h
+  | some x =>
+    have hid : x.id = cid := by simpa using List.find?_some hx
+    simp only [Option.getD_some]
+    rw [find_after_set w.clients cid { x with counter := x.counter.add n f } hid x hx]
+    rfl
+
+/-- ... and every OTHER client's control is exactly as it was (several clients with different limits) -/
+theorem addTransaction_other (w : World) (cid other n : Nat) (f : Bool) (h : (w.client? cid).isSome = true) (hne : other ≠ cid) :
+    (w.addTransaction cid n f).client? other = w.client? other := by
+  unfold addTransaction client! client? setClient at *
+  cases hx : w.clients.find? (fun y => decide (y.id = cid)) with
+  | none => rw [hx] at h; cases h
+  | some x =>
+    have hid : x.id = cid := by simpa using List.find?_some hx
+    simp only [Option.getD_some]
+    generalize w.clients = l
+    induction l with
+    | nil => rfl
+    | cons a as ih =>
+      rw [List.map_cons, List.find?_cons, List.find?_cons]
+      by_cases ha : a.id = cid
+      · have h1 : a.id = x.id := by rw [hid, ha]
+        have h2 : ¬ a.id = other := by rw [ha]; exact fun e => hne e.symm
+        simp only [h1, if_true]
+        have h3 : ¬ x.id = other := by rw [hid]; exact fun e => hne e.symm
+        simp only [h3, decide_false]
+        exact ih
+      · have h1 : ¬ a.id = x.id := by rw [hid]; exact ha
+        rw [if_neg h1]
+        by_cases hb : a.id = other
+        · simp [hb]
+        · simp only [hb, decide_false]; exact ih
+
+example : ((({ clients := [{ id := 0 }, { id := 1, txLimit := some 3 }] } : World).addTransaction 1 2 false).client! 1).counter
+    = { count := 2, curCount := 2 } := by decide
+
 example : counterSafe { curCount := 3, curFailed := 1 } (some 3) = false := by decide
 example : counterSafe { curCount := 2, curFailed := 1 } (some 3) = true := by decide
 
